@@ -2,11 +2,11 @@ SPECIFICATION MCSpec
 CONSTANTS
   Cases <- MCCases
   KFSites = {"filter_found", "trymap_override", "mapped_span"}
-  Fam = "spng"
-  MaxSize = 3
-  Alphabet = {"a", "b"}
-  MaxLen = 3
-  Kinds = {"mapped", "mstream"}
+  Fam = "pratt"
+  MaxSize = 1
+  Alphabet = {"a", "+", "*", "-", "!", "^"}
+  MaxLen = 4
+  Kinds = {"str"}
   Etys = {"rich"}
   Modes = {"E"}
   Chunk = 0
